@@ -1212,7 +1212,24 @@ func (g *gen) loweringTemplate() string {
 		}
 		return "match (s)-[:" + g.ek() + g.rng() + "]->(g" + g.optKind("t4k") + ") with collect(s) as ex match (c)-[:" + g.eks() + "]->(d) where " + neg + "c in ex return " + ret
 	case 5: // aggregate traversal count
-		return "match (u" + g.optKind("t5k") + ") where " + g.anchor("u") + " match (u)-[:" + g.eks() + g.rng() + "]->(c" + g.optKind("t5k2") + ") with distinct u, count(c) as cnt return u order by cnt desc" + g.lim()
+		// the two WHEREs of the shape: none, a plain predicate, a pattern predicate, a quantifier over a list property
+		where := func(v, label string) string {
+			switch g.pick(label, 6) {
+			case 0:
+				return ""
+			case 1:
+				return " where (" + v + ")-[:" + g.eks() + "]->()"
+			case 2:
+				return " where not (" + v + ")<-[:" + g.eks() + "]-() and " + g.anchor(v)
+			case 3:
+				return " where any(x in " + v + ".tags where x = 'x')"
+			default:
+				return " where " + g.anchor(v)
+			}
+		}
+		distinct := rapid.SampledFrom([]string{"distinct ", "distinct ", ""}).Draw(g.t, "t5d")
+		ret := rapid.SampledFrom([]string{"u order by cnt desc", "u order by cnt desc", "u, cnt order by cnt desc", "u.name, cnt order by cnt desc"}).Draw(g.t, "t5ret")
+		return "match (u" + g.optKind("t5k") + ")" + where("u", "t5w1") + " match (u)-[:" + g.eks() + g.rng() + "]->(c" + g.optKind("t5k2") + ")" + where("c", "t5w2") + " with " + distinct + "u, count(c) as cnt return " + ret + g.lim()
 	case 6: // quantifier over relationships(p)
 		q := rapid.SampledFrom([]string{"all", "any", "none"}).Draw(g.t, "t6q")
 		pred := rapid.SampledFrom([]string{"r.value > 0", "r.flag = true", "r.name = 'a'", "type(r) = 'R'", "r.value <= 2"}).Draw(g.t, "t6p")
